@@ -111,6 +111,21 @@ func trunc(s string, n int) string {
 }
 
 func cmdCheck(args []string) int {
-	fmt.Fprintln(os.Stderr, "check: not implemented yet")
-	return 2
+	fs := flag.NewFlagSet("check", flag.ExitOnError)
+	tier := fs.String("tier", "quick", "quick|thorough")
+	baseline := fs.Bool("write-baseline", false, "record the currently discharged obligations as the claimed baseline (maintenance, never run by registered commands)")
+	var id string
+	if len(args) > 0 && !strings.HasPrefix(args[0], "-") {
+		id = args[0]
+		args = args[1:]
+	}
+	fs.Parse(args)
+	if id == "" {
+		fmt.Fprintln(os.Stderr, "usage: govc check <Cxx> [--tier quick|thorough]")
+		return 2
+	}
+	if t := os.Getenv("VERIF_TIER"); t != "" && *tier == "quick" {
+		*tier = t
+	}
+	return engine.RunProperty(id, *tier, *baseline)
 }
